@@ -18,4 +18,11 @@ def gen(x):
         mm = x.need(re.search(r"#define\s+%s\s+(\d+)" % name, h), "mdsdrv.h:" + name)
         w.append("def %s : Nat := %s" % (name, mm.group(1)))
     w.append("def mdsDataCountMax : Nat := %d" % x.const_int(h, "data_count_max", "mdsdrv.h:data_count_max"))
+    # `CErr.stackEmpty` of the codec model is an InputError of the code (not a top()/pop() on an empty
+    # stack) only while both converters test the loop stack before using it
+    cpp = x.strip_comments(x.src("platform/mdsdrv.cpp"))
+    guards = re.findall(r"case\s+MDSDRV_Event::(LPB|LPF)\s*:\s*if\(loop_break_address\.empty\(\)\)\s*throw\s+InputError\(nullptr,\s*\"([^\"]*)\"\)", cpp)
+    x.need(len(guards) == 4 and sorted(g[0] for g in guards) == ["LPB", "LPB", "LPF", "LPF"],
+           "mdsdrv.cpp:convert_track/convert_macro_track test the loop stack before LPB/LPF (found %d guards)" % len(guards))
+    w.append("def mdsLoopCmdGuards : Nat := %d  -- LPB/LPF on an empty loop stack are input errors" % len(guards))
     return w
